@@ -1012,3 +1012,9 @@ def _(I, ctx, *a): return UNIT
 
 @model('re:^(std::boxed::)?Box::(into_raw|from_raw|leak|into_inner|into_pin|pin)$', 're:^(Rc|Arc|std::rc::Rc|std::sync::Arc)::(into_raw|from_raw|as_ptr)$')
 def _(I, ctx, v): return v
+
+
+@model('re:^<(std::path::)?(Path|PathBuf) as AsRef<.*>>::as_ref$', 're:^<(std::path::)?(Path|PathBuf) as (Deref|Borrow<.*>)>::(deref|borrow)$',
+       're:^<(std::ffi::)?(OsStr|OsString) as AsRef<.*>>::as_ref$', 're:^(std::path::)?Path::new$', 're:^(std::path::)?Path::(to_path_buf|to_owned)$',
+       're:^<(std::path::)?(Path|PathBuf) as (Partial)?Ord>::cmp_unused$')
+def _(I, ctx, r, *a): return r
